@@ -41,7 +41,7 @@ WHYS = {
     'dpa': ['traces_list', 'data_list', 'rows_more', 'rows_less', 'length', 'words', 'dpa_range', 'dpa_dtype', 'data_float'],
     'anova': ['traces_list', 'data_list', 'rows_more', 'rows_less', 'length', 'words', 'data_float', 'data_int64', 'auto_gt255', 'auto_neg'],
     'tbuild': ['traces_list', 'data_list', 'rows_more', 'rows_less', 'length', 'two_words', 'data_float', 'data_int64', 'auto_gt255', 'auto_neg'],
-    'tmatch': ['traces_list', 'data_list', 'rows_more', 'rows_less', 'length', 'before_build'],
+    'tmatch': ['traces_list', 'data_list', 'rows_more', 'rows_less', 'length', 'before_build', 'hyp_undeclared'],
     'attack': ['sf_raises', 'length', 'rows_meta'],
 }
 for _k in ('nicv', 'snr', 'mia'):
@@ -170,6 +170,11 @@ def _bad_args(case, op, last_good):
     if why == 'auto_neg':
         d2 = d.astype('int16')
         d2[0, 0] = -1 - int(d2[0, 0])
+        return t, d2
+    if why == 'hyp_undeclared':
+        # a hypothesis value without template in the LAST guess column: the earlier columns are valid
+        d2 = d.copy()
+        d2[-1, -1] = int(max(case['partitions'])) + 3
         return t, d2
     if why in ('before_build', 'sf_raises', 'rows_meta'):
         return t, d
